@@ -131,9 +131,9 @@ Definition b2d_operand (is_scalar_res : bool) (simd_row simd_col out_cols op_row
   if is_scalar_op then
     let n_packed := op_cols / N in
     (* simd_col - n_packed: no wrap, is_scalar_op gives n_packed <= simd_col *)
-    (SCALAR, if op_cols =? 1 then simd_row
+    (SCALAR, if op_cols =? 1 then simd_row * rowsgt1
              else n_packed * N + (simd_col - n_packed) + simd_row * out_cols * rowsgt1)
-  else if is_broadcast_op then (BROADCAST, simd_row)
+  else if is_broadcast_op then (BROADCAST, simd_row * rowsgt1)
   else (PACKED, simd_col * N + simd_row * out_cols * rowsgt1).
 
 (* index/ufunc.hpp:42-100 *)
@@ -243,7 +243,7 @@ Definition eval_outer (lhs_shape rhs_shape : list nat) (lhs rhs out : list A) : 
   run_steps (outer_step lhs rhs) (outer_entries lhs_shape rhs_shape) out.
 
 (* ------------------------------------------------------------------ eval_reduction (ufunc.hpp:172-381) *)
-Variable zero : A.        (* element_type(0): what op.set1(0) broadcasts *)
+Variable zero : A.        (* value of the lane fold on an empty register: unreachable, N >= 1 *)
 Variable ident : A.       (* view.op.identity() when the op has one, else 0 *)
 
 Definition hfold (reg : list A) : A :=      (* result = tmp[0]; for i in 1..N-1: result = op(result,tmp[i]) *)
@@ -261,9 +261,10 @@ Fixpoint full_tail (cnt i : nat) (inp : list A) (acc : A) : option A :=
   | O => Some acc
   | S c => obind (load1 inp i) (fun a => full_tail c (S i) inp (f acc a))
   end.
-(* the out_size == 1 arm (ufunc.hpp:199-227): accumulator starts from set1(0) *)
+(* the out_size == 1 arm: the accumulator starts from set1(identity) (since fix "SIMD full reduction
+   starts from the op's identity"; it was set1(0)) *)
 Definition eval_reduce_full (size : nat) (inp : list A) : option A :=
-  obind (full_packed size 0 size inp (set1 zero)) (fun reg =>
+  obind (full_packed size 0 size inp (set1 ident)) (fun reg =>
   full_tail (size - (size / N) * N) ((size / N) * N) inp (hfold reg)).
 
 Inductive rkind := HORIZONTAL | VERTICAL.
@@ -336,14 +337,19 @@ Definition hstep (inp : list A) (st : list A * list A) (e : entry2) : option (li
 Fixpoint run_hsteps (inp : list A) (es : list entry2) (st : list A * list A) : option (list A * list A) :=
   match es with [] => Some st | e :: t => obind (hstep inp st e) (run_hsteps inp t) end.
 
-(* per-axis arm (ufunc.hpp:229-379): out is first filled with the identity; [axis] is the stored
-   attribute (a signed index): [horizontal] = (axis == -1 || axis == dim-1), [axis1] = max 0 (axis+1);
+(* per-axis arm: out is first filled with the identity.  [axis] is the stored attribute, a signed
+   index written (negative?, magnitude); a negative axis gets the rank added (since fix "SIMD reduction
+   normalises a negative axis"; an axis below -rank stays negative in C++ — outside the quantifier, the
+   truncated subtraction here does not follow it).  HORIZONTAL iff the normalised axis is the last one;
    out_shape_k = output shape "as if keepdims" (a 1 inserted at the reduced axis) *)
-Definition eval_reduce_axis (inp_shape out_shape_k : list nat) (horizontal : bool) (axis1 : nat) (inp : list A) (out_size : nat) : option (list A) :=
+Definition norm_axis (dim : nat) (axis : bool * nat) : nat :=
+  if fst axis then dim - snd axis else snd axis.
+Definition eval_reduce_axis (inp_shape out_shape_k : list nat) (axis : bool * nat) (inp : list A) (out_size : nat) : option (list A) :=
   let out := repeat ident out_size in
-  let k := if horizontal then HORIZONTAL else VERTICAL in
-  let inp2 := reduction_nd_reshape k inp_shape axis1 in
-  let out2 := reduction_nd_reshape k out_shape_k axis1 in
+  let ax := norm_axis (length inp_shape) axis in
+  let k := if ax =? length inp_shape - 1 then HORIZONTAL else VERTICAL in
+  let inp2 := reduction_nd_reshape k inp_shape (S ax) in
+  let out2 := reduction_nd_reshape k out_shape_k (S ax) in
   match k with
   | VERTICAL => run_steps (vstep inp) (red_entries k out2 inp2) out
   | HORIZONTAL => option_map fst (run_hsteps inp (red_entries k out2 inp2) (out, set1 ident))
@@ -355,7 +361,7 @@ Definition eval_reduction (inp_shape out_shape_k : list nat) (axis : option (boo
   if out_size =? 1 then
     match eval_reduce_full (length inp) inp with Some r => Done [r] | None => Undefined end
   else match axis with
-       | Some (h, ax1) => of_opt (eval_reduce_axis inp_shape out_shape_k h ax1 inp out_size)
+       | Some ax => of_opt (eval_reduce_axis inp_shape out_shape_k ax inp out_size)
        | None => Refused
        end.
 
